@@ -48,23 +48,34 @@ func H_C04_RoundTrip() {
 	r, err := NewFileReader(ReaderPath(p), ReaderBufferSizeBytes(rbuf))
 	vrt.Assert(err == nil, "roundtrip/new-reader-no-error")
 	vrt.Assert(r.Open() == nil, "roundtrip/reader-open-no-error")
+	var seq [][]byte
 	for i := range recs {
 		got, err := r.ReadNext()
 		vrt.Assert(err == nil, "roundtrip/sequential-read-no-error")
 		vrt.Assert(vrt.SameBytes(got, recs[i]), "roundtrip/sequential-record-unchanged")
+		seq = append(seq, got)
 	}
 	_, err = r.ReadNext()
 	vrt.Assert(errors.Is(err, io.EOF), "roundtrip/sequential-then-eof")
+	// a returned record stays what it was when later records are read (no reuse of its memory)
+	for i := range seq {
+		vrt.Assert(vrt.SameBytes(seq[i], recs[i]), "roundtrip/earlier-results-not-overwritten-by-later-reads")
+	}
 	vrt.Assert(r.Close() == nil, "roundtrip/reader-close-no-error")
 
 	m, err := NewMemoryMappedReaderWithPath(p)
 	vrt.Assert(err == nil, "roundtrip/new-mmap-no-error")
 	vrt.Assert(m.Open() == nil, "roundtrip/mmap-open-no-error")
 	vrt.Assert(m.Size() == size+uint64(pad), "roundtrip/mmap-size")
+	ra := make([][]byte, len(recs))
 	for i := len(recs) - 1; i >= 0; i-- {
 		got, err := m.ReadNextAt(offs[i])
 		vrt.Assert(err == nil, "roundtrip/random-access-no-error")
 		vrt.Assert(vrt.SameBytes(got, recs[i]), "roundtrip/random-access-record-unchanged")
+		ra[i] = got
+	}
+	for i := range ra {
+		vrt.Assert(vrt.SameBytes(ra[i], recs[i]), "roundtrip/earlier-results-not-overwritten-by-later-reads")
 	}
 	vrt.Assert(m.Close() == nil, "roundtrip/mmap-close-no-error")
 	vrt.Assert(!vrt.Symbolic() || (fs.OpenHandles == 0 && fs.OpenMaps == 0), "roundtrip/everything-closed")
